@@ -1,4 +1,5 @@
-(* C03 - round trip decompile (compile e) = e on the model, for the disjunctive-normal-form family of Model/C03Family.v. *)
+(* C03 - round trip decompile (compile e) = e on the model, for the disjunctive-normal-form family of Model/C03Family.v
+   (literals: a, not a, a == b, a != b, not a == b, not a != b, a is None, a is not None). *)
 From Coq Require Import List Bool Arith Lia Sorted.
 Import ListNotations.
 Require Import PonyV.Model.C03Bexp PonyV.Model.C03Decomp PonyV.Model.C03Family PonyV.Proofs.C03Checker.
@@ -67,69 +68,88 @@ Lemma comp_or_cons2 : forall next next2 c x y s p,
 Proof. reflexivity. Qed.
 
 (* ------------------------------------------------------------------ literals and groups of literals *)
-Lemma elen_lit : forall l, elen true (lit_bexp l) = 2.
-Proof. intros [[] n]; reflexivity. Qed.
+Lemma elen_lit : forall l, elen true (lit_bexp l) = lw l.
+Proof. intros [[] n|[] ne a b|isnot a]; reflexivity. Qed.
 
-Lemma comp_lit : forall neg n p next c, comp true (lit_bexp (Lit neg n)) p next c = [ILoad n; jump_to (xorb c neg) next].
-Proof. intros [] n p next []; reflexivity. Qed.
+Lemma comp_lit : forall l p next c, comp true (lit_bexp l) p next c = lval l ++ [ljmp l c next].
+Proof. intros [[] n|[] ne a b|isnot a] p next c; try reflexivity. cbn [lit_bexp comp lval ljmp app]. destruct isnot, c; reflexivity. Qed.
 
-Lemma elen_list_lits : forall ls, elen_list true (map lit_bexp ls) = 2 * length ls.
+Lemma lws_app : forall a b, lws (a ++ b) = lws a + lws b.
+Proof. induction a as [|x r IH]; intro b; [reflexivity|]. cbn [app lws]. rewrite IH. lia. Qed.
+
+Lemma lw_pos : forall l, 2 <= lw l.
+Proof. intros [neg n|neg ne a b|isnot a]; cbn; lia. Qed.
+
+Lemma lws_pos : forall ls, ls <> [] -> 2 <= lws ls.
+Proof. intros [|l r] H; [congruence|]. cbn [lws]. pose proof (lw_pos l). lia. Qed.
+
+Lemma elen_list_lits : forall ls, elen_list true (map lit_bexp ls) = lws ls.
 Proof.
   induction ls as [|x r IH]; [reflexivity|].
   destruct r as [|y s].
-  - cbn [map elen_list length]. rewrite elen_lit. reflexivity.
+  - cbn [map elen_list lws]. rewrite elen_lit. lia.
   - change (map lit_bexp (x :: y :: s)) with (lit_bexp x :: lit_bexp y :: map lit_bexp s).
     rewrite elen_list_cons2, elen_lit. change (lit_bexp y :: map lit_bexp s) with (map lit_bexp (y :: s)).
-    rewrite IH. cbn [length]. lia.
+    rewrite IH. reflexivity.
 Qed.
 
-Lemma elen_mk_and : forall ls, ls <> [] -> elen true (mk_and ls) = 2 * length ls.
+Lemma elen_mk_and : forall ls, ls <> [] -> elen true (mk_and ls) = lws ls.
 Proof.
   intros ls H. destruct ls as [|x [|y s]]; [congruence| |].
-  - cbn [mk_and]. rewrite elen_lit. reflexivity.
+  - cbn [mk_and lws]. rewrite elen_lit. lia.
   - unfold mk_and. rewrite elen_And. apply elen_list_lits.
 Qed.
 
-(* an `and` whose falsity sends control to the loop top: every literal jumps back when false *)
-Lemma comp_and_back : forall ls p, comp_and true TTop TTop false (map lit_bexp ls) p = and_back ls.
+(* a run of literals that all jump on the same truth value c to the same target *)
+Fixpoint chain_code (c : bool) (tg : tgt) (ls : list lit) : list instr :=
+  match ls with [] => [] | l :: r => lval l ++ ljmp l c tg :: chain_code c tg r end.
+
+Lemma and_back_chain : forall ls, and_back ls = chain_code false TTop ls.
+Proof. induction ls as [|l r IH]; [reflexivity|]. cbn [and_back chain_code]. rewrite IH. reflexivity. Qed.
+
+Lemma app_cons_assoc : forall (A : Type) (a : list A) (x : A) (b : list A), (a ++ [x]) ++ b = a ++ x :: b.
+Proof. intros. rewrite <- app_assoc. reflexivity. Qed.
+
+(* an `and` whose falsity sends control to one target: every literal jumps there when false *)
+Lemma comp_and_chain : forall ls p tg, comp_and true tg tg false (map lit_bexp ls) p = chain_code false tg ls.
 Proof.
-  induction ls as [|[neg n] r IH]; intros p; [reflexivity|].
+  induction ls as [|l r IH]; intros p tg; [reflexivity|].
   destruct r as [|y s].
-  - cbn [map comp_and and_back]. rewrite comp_lit. destruct neg; reflexivity.
-  - change (map lit_bexp (Lit neg n :: y :: s)) with (lit_bexp (Lit neg n) :: lit_bexp y :: map lit_bexp s).
+  - cbn [map comp_and chain_code]. rewrite comp_lit. reflexivity.
+  - change (map lit_bexp (l :: y :: s)) with (lit_bexp l :: lit_bexp y :: map lit_bexp s).
     rewrite comp_and_cons2, comp_lit. change (lit_bexp y :: map lit_bexp s) with (map lit_bexp (y :: s)).
-    rewrite IH. destruct neg; reflexivity.
+    rewrite IH. cbn [chain_code]. apply app_cons_assoc.
 Qed.
 
 Lemma comp_mk_and_back : forall ls p, ls <> [] -> comp true (mk_and ls) p TTop false = and_back ls.
 Proof.
-  intros ls p H. destruct ls as [|[neg n] [|y s]]; [congruence| |].
-  - cbn [mk_and]. rewrite comp_lit. destruct neg; reflexivity.
-  - unfold mk_and. rewrite comp_And. apply comp_and_back.
+  intros ls p H. rewrite and_back_chain. destruct ls as [|l [|y s]]; [congruence| |].
+  - cbn [mk_and chain_code]. rewrite comp_lit. reflexivity.
+  - unfold mk_and. rewrite comp_And. apply comp_and_chain.
 Qed.
 
 (* an `and` that is a non-last alternative of an `or`: false -> next alternative, true (after the last literal) -> body *)
 Lemma comp_and_fwd : forall ls p nextalt body,
   comp_and true (TAt body) (TAt nextalt) true (map lit_bexp ls) p = alt_fwd ls nextalt body.
 Proof.
-  induction ls as [|[neg n] r IH]; intros p nextalt body; [reflexivity|].
+  induction ls as [|l r IH]; intros p nextalt body; [reflexivity|].
   destruct r as [|y s].
-  - cbn [map comp_and alt_fwd]. rewrite comp_lit. destruct neg; reflexivity.
-  - change (map lit_bexp (Lit neg n :: y :: s)) with (lit_bexp (Lit neg n) :: lit_bexp y :: map lit_bexp s).
+  - cbn [map comp_and alt_fwd]. rewrite comp_lit. reflexivity.
+  - change (map lit_bexp (l :: y :: s)) with (lit_bexp l :: lit_bexp y :: map lit_bexp s).
     rewrite comp_and_cons2, comp_lit. change (lit_bexp y :: map lit_bexp s) with (map lit_bexp (y :: s)).
-    rewrite IH. destruct neg; reflexivity.
+    rewrite IH. cbn [alt_fwd]. apply app_cons_assoc.
 Qed.
 
 Lemma comp_mk_and_fwd : forall ls p body, ls <> [] ->
-  comp true (mk_and ls) p (TAt body) true = alt_fwd ls (p + 2 * length ls) body.
+  comp true (mk_and ls) p (TAt body) true = alt_fwd ls (p + lws ls) body.
 Proof.
-  intros ls p body H. destruct ls as [|[neg n] [|y s]]; [congruence| |].
-  - cbn [mk_and]. rewrite comp_lit. destruct neg; reflexivity.
+  intros ls p body H. destruct ls as [|l [|y s]]; [congruence| |].
+  - cbn [mk_and alt_fwd]. rewrite comp_lit. reflexivity.
   - unfold mk_and. rewrite comp_And. rewrite elen_And, elen_list_lits. apply comp_and_fwd.
 Qed.
 
 (* the `or` of the alternatives *)
-Lemma elen_list_alts : forall alts, Forall (fun ls => ls <> []) alts -> elen_list true (map mk_and alts) = 2 * total_lits alts.
+Lemma elen_list_alts : forall alts, Forall (fun ls => ls <> []) alts -> elen_list true (map mk_and alts) = total_lits alts.
 Proof.
   induction alts as [|ls r IH]; intro H; [reflexivity|].
   inversion H as [|? ? Hls Hr]; subst.
@@ -137,7 +157,7 @@ Proof.
   - cbn [map elen_list total_lits]. rewrite elen_mk_and by assumption. lia.
   - change (map mk_and (ls :: ls2 :: r2)) with (mk_and ls :: mk_and ls2 :: map mk_and r2).
     rewrite elen_list_cons2, elen_mk_and by assumption. change (mk_and ls2 :: map mk_and r2) with (map mk_and (ls2 :: r2)).
-    rewrite (IH Hr). cbn [total_lits]. lia.
+    rewrite (IH Hr). reflexivity.
 Qed.
 
 Lemma comp_or_alts : forall alts p body, Forall (fun ls => ls <> []) alts ->
@@ -153,16 +173,14 @@ Proof.
 Qed.
 
 Lemma comp_dnf : forall alts p, wf_alts alts ->
-  comp true (dnf alts) p TTop false = dnf_code alts p (p + 2 * total_lits alts).
+  comp true (dnf alts) p TTop false = dnf_code alts p (p + total_lits alts).
 Proof.
   intros alts p [Hne Hall]. destruct alts as [|ls [|ls2 r]]; [congruence| |].
   - unfold dnf. cbn [map mk_or_of dnf_code]. inversion Hall; subst. apply comp_mk_and_back. assumption.
-  - unfold dnf. set (es := map mk_and (ls :: ls2 :: r)). 
+  - unfold dnf. set (es := map mk_and (ls :: ls2 :: r)).
     assert (Hes : mk_or_of es = Or es) by reflexivity. rewrite Hes. rewrite comp_Or.
     rewrite elen_Or. unfold es. rewrite elen_list_alts by assumption. apply comp_or_alts. assumption.
 Qed.
-
-
 (* ------------------------------------------------------------------ jump threading does nothing without JUMP_FORWARD *)
 Definition no_fwd (code : list instr) : Prop := forall t, ~ In (IFwd t) code.
 
@@ -184,18 +202,39 @@ Qed.
 Lemma no_fwd_app : forall a b, no_fwd a -> no_fwd b -> no_fwd (a ++ b).
 Proof. intros a b Ha Hb t Hin. apply in_app_or in Hin. destruct Hin; [eapply Ha | eapply Hb]; eassumption. Qed.
 
-Lemma no_fwd_and_back : forall ls, no_fwd (and_back ls).
+
+(* facts about the instructions of one literal *)
+Lemma lval_facts : forall l x, In x (lval l) -> target_of x = None /\ is_back x = false /\ x <> ICopy /\ (forall t, x <> IFwd t) /\ is_final x = false.
 Proof.
-  induction ls as [|[neg n] r IH]; intros t Hin; [exact Hin|].
-  cbn [and_back] in Hin. destruct Hin as [H|[H|H]]; try discriminate. eapply IH; eassumption.
+  intros [neg n|neg ne a b|isnot a] x H; cbn [lval In] in H;
+    repeat (destruct H as [<-|H]; [repeat split; try discriminate; intros; discriminate|]); destruct H.
 Qed.
+
+Lemma ljmp_facts : forall l c tg,
+  ljmp l c tg <> ICopy /\ (forall t, ljmp l c tg <> IFwd t) /\ is_final (ljmp l c tg) = false /\
+  target_of (ljmp l c tg) = (match tg with TTop => None | TAt t => Some t end) /\
+  is_back (ljmp l c tg) = (match tg with TTop => true | TAt _ => false end).
+Proof. intros [neg n|neg ne a b|isnot a] c [|t]; cbn [ljmp jump_to jump_none_to]; repeat split; try discriminate; intros; discriminate. Qed.
+
+Lemma no_fwd_lval : forall l, no_fwd (lval l).
+Proof. intros l t H. destruct (lval_facts l _ H) as [_ [_ [_ [Hf _]]]]. exact (Hf t eq_refl). Qed.
+
+Lemma no_fwd_chain : forall c tg ls, no_fwd (chain_code c tg ls).
+Proof.
+  induction ls as [|l r IH]; [intros t H; exact H|].
+  cbn [chain_code]. apply no_fwd_app; [apply no_fwd_lval|].
+  intros t [H|H]; [destruct (ljmp_facts l c tg) as [_ [Hf _]]; exact (Hf t H) | exact (IH t H)].
+Qed.
+
+Lemma no_fwd_and_back : forall ls, no_fwd (and_back ls).
+Proof. intro ls. rewrite and_back_chain. apply no_fwd_chain. Qed.
 
 Lemma no_fwd_alt_fwd : forall ls a b, no_fwd (alt_fwd ls a b).
 Proof.
-  induction ls as [|[neg n] r IH]; intros a b t Hin; [exact Hin|].
-  cbn [alt_fwd] in Hin. destruct r as [|y s].
-  - destruct Hin as [H|[H|H]]; try discriminate. exact H.
-  - destruct Hin as [H|[H|H]]; try discriminate. eapply IH; eassumption.
+  induction ls as [|l r IH]; intros a b; [intros t H; exact H|].
+  cbn [alt_fwd]. destruct r as [|y s].
+  - apply no_fwd_app; [apply no_fwd_lval|]. intros t [H|[]]. destruct (ljmp_facts l true (TAt b)) as [_ [Hf _]]. exact (Hf t H).
+  - apply no_fwd_app; [apply no_fwd_lval|]. intros t [H|H]; [destruct (ljmp_facts l false (TAt a)) as [_ [Hf _]]; exact (Hf t H) | exact (IH a b t H)].
 Qed.
 
 Lemma no_fwd_dnf_code : forall alts p body, no_fwd (dnf_code alts p body).
@@ -206,7 +245,7 @@ Proof.
 Qed.
 
 Lemma compile_dnf : forall alts, wf_alts alts ->
-  compile PFilter (dnf alts) = dnf_code alts 2 (2 + 2 * total_lits alts) ++ [ILoadElt; IYield].
+  compile PFilter (dnf alts) = dnf_code alts 2 (2 + total_lits alts) ++ [ILoadElt; IYield].
 Proof.
   intros alts H. unfold compile. change (pos_of 0) with 2. rewrite comp_dnf by assumption.
   apply thread_no_fwd. apply no_fwd_app; [apply no_fwd_dnf_code|].
@@ -227,32 +266,48 @@ Proof.
   - rewrite IH. f_equal. lia.
 Qed.
 
-Lemma ce_from_and_back : forall ls i acc, ls <> [] -> ce_from (and_back ls) i acc = pos_of (i + 2 * length ls).
+Lemma ce_from_noback : forall l i acc, (forall x, In x l -> is_back x = false) -> ce_from l i acc = acc.
 Proof.
-  induction ls as [|[neg n] r IH]; intros i acc H; [congruence|].
-  cbn [and_back ce_from is_back length]. destruct r as [|y s].
-  - cbn [and_back ce_from length]. f_equal. lia.
-  - rewrite IH by discriminate. f_equal. cbn [length]. lia.
+  induction l as [|x r IH]; intros i acc H; [reflexivity|].
+  cbn [ce_from]. rewrite (H x (or_introl eq_refl)). apply IH. intros y Hy. apply H. right. exact Hy.
+Qed.
+
+Lemma ce_from_lval : forall l i acc, ce_from (lval l) i acc = acc.
+Proof. intros l i acc. apply ce_from_noback. intros x Hx. apply (lval_facts l x Hx). Qed.
+
+Lemma ce_from_and_back : forall ls i acc, ls <> [] -> ce_from (and_back ls) i acc = pos_of (i + lws ls).
+Proof.
+  induction ls as [|l r IH]; intros i acc H; [congruence|].
+  cbn [and_back lws]. rewrite ce_from_app, ce_from_lval. cbn [ce_from].
+  destruct (ljmp_facts l false TTop) as [_ [_ [_ [_ Hb]]]]. rewrite Hb.
+  destruct r as [|y s].
+  - cbn [and_back ce_from lws]. f_equal. unfold lw. lia.
+  - rewrite IH by discriminate. f_equal. unfold lw. lia.
 Qed.
 
 Lemma ce_from_alt_fwd : forall ls a b i acc, ce_from (alt_fwd ls a b) i acc = acc.
 Proof.
-  induction ls as [|[neg n] r IH]; intros a b i acc; [reflexivity|].
-  cbn [alt_fwd]. destruct r as [|y s]; [reflexivity|].
-  cbn [ce_from is_back]. apply IH.
+  induction ls as [|l r IH]; intros a b i acc; [reflexivity|].
+  cbn [alt_fwd]. destruct r as [|y s].
+  - rewrite ce_from_app, ce_from_lval. cbn [ce_from]. destruct (ljmp_facts l true (TAt b)) as [_ [_ [_ [_ Hb]]]]. rewrite Hb. reflexivity.
+  - rewrite ce_from_app, ce_from_lval. cbn [ce_from]. destruct (ljmp_facts l false (TAt a)) as [_ [_ [_ [_ Hb]]]]. rewrite Hb. apply IH.
 Qed.
 
-Lemma length_and_back : forall ls, length (and_back ls) = 2 * length ls.
-Proof. induction ls as [|[neg n] r IH]; [reflexivity|]. cbn [and_back length]. rewrite IH. lia. Qed.
+Lemma length_chain : forall c tg ls, length (chain_code c tg ls) = lws ls.
+Proof. induction ls as [|l r IH]; [reflexivity|]. cbn [chain_code lws]. rewrite app_length. cbn [length]. rewrite IH. unfold lw. lia. Qed.
 
-Lemma length_alt_fwd : forall ls a b, length (alt_fwd ls a b) = 2 * length ls.
+Lemma length_and_back : forall ls, length (and_back ls) = lws ls.
+Proof. intro ls. rewrite and_back_chain. apply length_chain. Qed.
+
+Lemma length_alt_fwd : forall ls a b, length (alt_fwd ls a b) = lws ls.
 Proof.
-  induction ls as [|[neg n] r IH]; intros a b; [reflexivity|].
-  cbn [alt_fwd]. destruct r as [|y s]; [reflexivity|].
-  cbn [length] in *. rewrite IH. lia.
+  induction ls as [|l r IH]; intros a b; [reflexivity|].
+  cbn [alt_fwd lws]. destruct r as [|y s].
+  - rewrite app_length. cbn [length lws]. unfold lw. lia.
+  - rewrite app_length. cbn [length]. rewrite IH. unfold lw. lia.
 Qed.
 
-Lemma length_dnf_code : forall alts p body, length (dnf_code alts p body) = 2 * total_lits alts.
+Lemma length_dnf_code : forall alts p body, length (dnf_code alts p body) = total_lits alts.
 Proof.
   induction alts as [|ls r IH]; intros p body; [reflexivity|].
   cbn [dnf_code total_lits]. destruct r as [|ls2 r2].
@@ -260,17 +315,19 @@ Proof.
   - rewrite app_length, length_alt_fwd, IH. lia.
 Qed.
 
+Lemma total_lits_cons : forall ls r, total_lits (ls :: r) = lws ls + total_lits r.
+Proof. reflexivity. Qed.
+
 Lemma ce_from_dnf_code : forall alts p body i acc, wf_alts alts ->
-  ce_from (dnf_code alts p body) i acc = pos_of (i + 2 * total_lits alts).
+  ce_from (dnf_code alts p body) i acc = pos_of (i + total_lits alts).
 Proof.
   induction alts as [|ls r IH]; intros p body i acc [Hne Hall]; [congruence|].
   inversion Hall as [|? ? Hls Hr]; subst.
-  cbn [dnf_code total_lits]. destruct r as [|ls2 r2].
+  cbn [dnf_code]. rewrite total_lits_cons. destruct r as [|ls2 r2].
   - rewrite ce_from_and_back by assumption. cbn [total_lits]. f_equal. lia.
   - rewrite ce_from_app, ce_from_alt_fwd, length_alt_fwd.
     rewrite IH by (split; [discriminate|assumption]). f_equal. lia.
 Qed.
-
 (* ------------------------------------------------------------------ analyze_jumps *)
 Fixpoint jumps_from (l : list instr) (i p : nat) : list nat :=
   match l with
@@ -355,64 +412,90 @@ Qed.
 
 (* ------------------------------------------------------------------ or_jumps of the DNF stream *)
 (* positions of the jumps to the body: the last literal of every alternative but the last *)
+(* ------------------------------------------------------------------ or_jumps of the DNF stream *)
+(* positions of the jumps to the body: the last instruction of every alternative but the last *)
 Fixpoint epos (alts : list (list lit)) (i : nat) : list nat :=
   match alts with
   | [] => []
   | ls :: r => match r with
                | [] => []
-               | _ :: _ => pos_of (i + 2 * length ls - 1) :: epos r (i + 2 * length ls)
+               | _ :: _ => pos_of (i + lws ls - 1) :: epos r (i + lws ls)
                end
   end.
 
-Lemma jf_and_back : forall ls i p, jumps_from (and_back ls) i p = [].
-Proof. induction ls as [|[neg n] r IH]; intros i p; [reflexivity|]. cbn [and_back jumps_from target_of]. apply IH. Qed.
-
-Lemma jf_alt_body : forall ls a b i, ls <> [] -> a <> b -> jumps_from (alt_fwd ls a b) i b = [pos_of (i + 2 * length ls - 1)].
+Lemma jf_notarget : forall l i p, (forall x, In x l -> target_of x = None) -> jumps_from l i p = [].
 Proof.
-  induction ls as [|[neg n] r IH]; intros a b i H Hab; [congruence|].
-  cbn [alt_fwd]. destruct r as [|y s].
-  - cbn [jumps_from target_of]. rewrite Nat.eqb_refl. cbn [length]. do 2 f_equal. lia.
-  - cbn [jumps_from target_of]. replace (a =? b) with false by (symmetry; apply Nat.eqb_neq; assumption).
-    rewrite IH by (try discriminate; assumption). do 2 f_equal. cbn [length]. lia.
+  induction l as [|x r IH]; intros i p H; [reflexivity|].
+  cbn [jumps_from]. rewrite (H x (or_introl eq_refl)). apply IH. intros y Hy. apply H. right. exact Hy.
 Qed.
 
-Lemma jf_alt_next : forall ls a b i j, a <> b -> In j (jumps_from (alt_fwd ls a b) i a) -> j < pos_of (i + 2 * length ls - 1).
+Lemma jf_lval : forall l i p, jumps_from (lval l) i p = [].
+Proof. intros l i p. apply jf_notarget. intros x Hx. apply (lval_facts l x Hx). Qed.
+
+Lemma jf_and_back : forall ls i p, jumps_from (and_back ls) i p = [].
 Proof.
-  induction ls as [|[neg n] r IH]; intros a b i j Hab Hin; [destruct Hin|].
-  cbn [alt_fwd] in Hin. destruct r as [|y s].
-  - cbn [jumps_from target_of] in Hin. replace (b =? a) with false in Hin by (symmetry; apply Nat.eqb_neq; congruence). destruct Hin.
-  - cbn [jumps_from target_of] in Hin. rewrite Nat.eqb_refl in Hin. destruct Hin as [Hj|Hin].
-    + subst j. unfold pos_of. cbn [length]. lia.
-    + apply (IH a b (S (S i)) j Hab) in Hin. unfold pos_of in *. cbn [length] in *. lia.
+  induction ls as [|l r IH]; intros i p; [reflexivity|].
+  cbn [and_back]. rewrite jumps_from_app, jf_lval. cbn [app jumps_from].
+  destruct (ljmp_facts l false TTop) as [_ [_ [_ [Ht _]]]]. rewrite Ht. apply IH.
+Qed.
+
+Lemma length_lval_lw : forall l, length (lval l) = lw l - 1.
+Proof. intro l. unfold lw. lia. Qed.
+
+Lemma jf_alt_body : forall ls a b i, ls <> [] -> a <> b -> jumps_from (alt_fwd ls a b) i b = [pos_of (i + lws ls - 1)].
+Proof.
+  induction ls as [|l r IH]; intros a b i H Hab; [congruence|].
+  cbn [alt_fwd lws]. destruct r as [|y s].
+  - rewrite jumps_from_app, jf_lval. cbn [app jumps_from lws].
+    destruct (ljmp_facts l true (TAt b)) as [_ [_ [_ [Ht _]]]]. rewrite Ht, Nat.eqb_refl. do 2 f_equal. unfold lw. lia.
+  - rewrite jumps_from_app, jf_lval. cbn [app jumps_from].
+    destruct (ljmp_facts l false (TAt a)) as [_ [_ [_ [Ht _]]]]. rewrite Ht.
+    replace (a =? b) with false by (symmetry; apply Nat.eqb_neq; assumption).
+    rewrite IH by (try discriminate; assumption). do 2 f_equal. pose proof (lws_pos (y :: s) ltac:(discriminate)). unfold lw. lia.
+Qed.
+
+Lemma jf_alt_next : forall ls a b i j, a <> b -> In j (jumps_from (alt_fwd ls a b) i a) -> j < pos_of (i + lws ls - 1).
+Proof.
+  induction ls as [|l r IH]; intros a b i j Hab Hin; [destruct Hin|].
+  cbn [alt_fwd lws] in *. destruct r as [|y s].
+  - rewrite jumps_from_app, jf_lval in Hin. cbn [app jumps_from] in Hin.
+    destruct (ljmp_facts l true (TAt b)) as [_ [_ [_ [Ht _]]]]. rewrite Ht in Hin.
+    replace (b =? a) with false in Hin by (symmetry; apply Nat.eqb_neq; congruence). destruct Hin.
+  - rewrite jumps_from_app, jf_lval in Hin. cbn [app jumps_from] in Hin.
+    destruct (ljmp_facts l false (TAt a)) as [_ [_ [_ [Ht _]]]]. rewrite Ht, Nat.eqb_refl in Hin.
+    pose proof (lws_pos (y :: s) ltac:(discriminate)) as Hp.
+    destruct Hin as [Hj|Hin].
+    + subst j. unfold pos_of, lw. lia.
+    + apply (IH a b _ j Hab) in Hin. unfold pos_of, lw in *. lia.
 Qed.
 
 Lemma jf_alt_other : forall ls a b i p, p <> a -> p <> b -> jumps_from (alt_fwd ls a b) i p = [].
 Proof.
-  induction ls as [|[neg n] r IH]; intros a b i p Ha Hb; [reflexivity|].
+  induction ls as [|l r IH]; intros a b i p Ha Hb; [reflexivity|].
   cbn [alt_fwd]. destruct r as [|y s].
-  - cbn [jumps_from target_of]. replace (b =? p) with false by (symmetry; apply Nat.eqb_neq; congruence). reflexivity.
-  - cbn [jumps_from target_of]. replace (a =? p) with false by (symmetry; apply Nat.eqb_neq; congruence). apply IH; assumption.
+  - rewrite jumps_from_app, jf_lval. cbn [app jumps_from]. destruct (ljmp_facts l true (TAt b)) as [_ [_ [_ [Ht _]]]]. rewrite Ht.
+    replace (b =? p) with false by (symmetry; apply Nat.eqb_neq; congruence). reflexivity.
+  - rewrite jumps_from_app, jf_lval. cbn [app jumps_from]. destruct (ljmp_facts l false (TAt a)) as [_ [_ [_ [Ht _]]]]. rewrite Ht.
+    replace (a =? p) with false by (symmetry; apply Nat.eqb_neq; congruence). apply IH; assumption.
 Qed.
 
-Lemma total_lits_cons : forall ls r, total_lits (ls :: r) = length ls + total_lits r.
-Proof. reflexivity. Qed.
-
-Lemma total_lits_pos : forall alts, wf_alts alts -> 1 <= total_lits alts.
+Lemma total_lits_pos : forall alts, wf_alts alts -> 2 <= total_lits alts.
 Proof.
-  intros [|ls r] [Hne Hall]; [congruence|]. inversion Hall; subst. cbn [total_lits]. destruct ls; [congruence|]. cbn [length]. lia.
+  intros [|ls r] [Hne Hall]; [congruence|]. inversion Hall; subst. rewrite total_lits_cons. pose proof (lws_pos ls ltac:(assumption)). lia.
 Qed.
 
 Lemma epos_bounds : forall alts i e, Forall (fun ls => ls <> []) alts -> In e (epos alts i) ->
-  pos_of i < e /\ e < pos_of (i + 2 * total_lits alts).
+  pos_of i < e /\ e < pos_of (i + total_lits alts).
 Proof.
   induction alts as [|ls r IH]; intros i e Hall Hin; [destruct Hin|].
   inversion Hall as [|? ? Hls Hr]; subst.
   cbn [epos] in Hin. destruct r as [|ls2 r2]; [destruct Hin|].
-  assert (Hl : 1 <= length ls) by (destruct ls; [congruence | cbn [length]; lia]).
-  assert (Ht : 1 <= total_lits (ls2 :: r2)) by (apply total_lits_pos; split; [discriminate|assumption]).
+  assert (Hl : 2 <= lws ls) by (apply lws_pos; assumption).
+  assert (Ht : 2 <= total_lits (ls2 :: r2)) by (apply total_lits_pos; split; [discriminate|assumption]).
+  rewrite total_lits_cons.
   destruct Hin as [He|Hin].
-  - subst e. unfold pos_of. cbn [total_lits] in *. lia.
-  - apply (IH _ _ Hr) in Hin. unfold pos_of in *. cbn [total_lits] in *. lia.
+  - subst e. unfold pos_of. lia.
+  - apply (IH _ _ Hr) in Hin. unfold pos_of in *. lia.
 Qed.
 
 Lemma epos_sorted : forall alts i, Forall (fun ls => ls <> []) alts -> StronglySorted lt (epos alts i).
@@ -426,48 +509,48 @@ Qed.
 
 (* claim A: the jumps to the body; claim B: every other forward jump is blocked by one of them *)
 Lemma jf_dnf_body : forall alts i, wf_alts alts ->
-  jumps_from (dnf_code alts (pos_of i) (pos_of (i + 2 * total_lits alts))) i (pos_of (i + 2 * total_lits alts)) = epos alts i.
+  jumps_from (dnf_code alts (pos_of i) (pos_of (i + total_lits alts))) i (pos_of (i + total_lits alts)) = epos alts i.
 Proof.
   induction alts as [|ls r IH]; intros i [Hne Hall]; [congruence|].
   inversion Hall as [|? ? Hls Hr]; subst.
   cbn [dnf_code epos]. destruct r as [|ls2 r2]; [apply jf_and_back|].
-  assert (Ht : 1 <= total_lits (ls2 :: r2)) by (apply total_lits_pos; split; [discriminate|assumption]).
+  assert (Ht : 2 <= total_lits (ls2 :: r2)) by (apply total_lits_pos; split; [discriminate|assumption]).
   rewrite jumps_from_app, length_alt_fwd.
   rewrite jf_alt_body; [|assumption| unfold pos_of; rewrite (total_lits_cons ls); lia].
   cbn [app]. f_equal.
-  replace (pos_of i + 2 * length ls) with (pos_of (i + 2 * length ls)) by (unfold pos_of; lia).
-  replace (i + 2 * total_lits (ls :: ls2 :: r2)) with ((i + 2 * length ls) + 2 * total_lits (ls2 :: r2)) by (rewrite (total_lits_cons ls); lia).
+  replace (pos_of i + lws ls) with (pos_of (i + lws ls)) by (unfold pos_of; lia).
+  replace (i + total_lits (ls :: ls2 :: r2)) with ((i + lws ls) + total_lits (ls2 :: r2)) by (rewrite (total_lits_cons ls); lia).
   apply IH. split; [discriminate|assumption].
 Qed.
 
-Lemma jf_dnf_blocked : forall alts i p j, wf_alts alts -> p < pos_of (i + 2 * total_lits alts) ->
-  In j (jumps_from (dnf_code alts (pos_of i) (pos_of (i + 2 * total_lits alts))) i p) ->
+Lemma jf_dnf_blocked : forall alts i p j, wf_alts alts -> p < pos_of (i + total_lits alts) ->
+  In j (jumps_from (dnf_code alts (pos_of i) (pos_of (i + total_lits alts))) i p) ->
   exists e, In e (epos alts i) /\ j < e /\ e < p.
 Proof.
   induction alts as [|ls r IH]; intros i p j [Hne Hall] Hp Hin; [congruence|].
   inversion Hall as [|? ? Hls Hr]; subst.
   cbn [dnf_code] in Hin. destruct r as [|ls2 r2]; [rewrite jf_and_back in Hin; destruct Hin|].
-  assert (Ht : 1 <= total_lits (ls2 :: r2)) by (apply total_lits_pos; split; [discriminate|assumption]).
-  assert (Hl : 1 <= length ls) by (destruct ls; [congruence | cbn [length]; lia]).
+  assert (Ht : 2 <= total_lits (ls2 :: r2)) by (apply total_lits_pos; split; [discriminate|assumption]).
+  assert (Hl : 2 <= lws ls) by (apply lws_pos; assumption).
   rewrite jumps_from_app, length_alt_fwd in Hin. apply in_app_or in Hin.
-  replace (pos_of i + 2 * length ls) with (pos_of (i + 2 * length ls)) in Hin by (unfold pos_of; lia).
-  replace (i + 2 * total_lits (ls :: ls2 :: r2)) with ((i + 2 * length ls) + 2 * total_lits (ls2 :: r2)) in * by (rewrite (total_lits_cons ls); lia).
+  replace (pos_of i + lws ls) with (pos_of (i + lws ls)) in Hin by (unfold pos_of; lia).
+  replace (i + total_lits (ls :: ls2 :: r2)) with ((i + lws ls) + total_lits (ls2 :: r2)) in * by (rewrite (total_lits_cons ls); lia).
   destruct Hin as [Hin|Hin].
-  - destruct (Nat.eq_dec p (pos_of (i + 2 * length ls))) as [Hpa|Hpa].
+  - destruct (Nat.eq_dec p (pos_of (i + lws ls))) as [Hpa|Hpa].
     + subst p. apply jf_alt_next in Hin; [|unfold pos_of; lia].
-      exists (pos_of (i + 2 * length ls - 1)). split; [cbn [epos]; left; reflexivity|]. split; [assumption|]. unfold pos_of. lia.
+      exists (pos_of (i + lws ls - 1)). split; [cbn [epos]; left; reflexivity|]. split; [assumption|]. unfold pos_of. lia.
     + rewrite jf_alt_other in Hin; [destruct Hin | assumption | lia].
   - assert (Hwf : wf_alts (ls2 :: r2)) by (split; [discriminate|assumption]).
-    destruct (IH (i + 2 * length ls) p j Hwf Hp Hin) as [e [He Hb]].
+    destruct (IH (i + lws ls) p j Hwf Hp Hin) as [e [He Hb]].
     exists e. split; [cbn [epos]; right; assumption | assumption].
 Qed.
 
 Lemma or_jumps_dnf : forall alts, wf_alts alts ->
-  or_jumps (dnf_code alts 2 (2 + 2 * total_lits alts) ++ [ILoadElt; IYield]) = rev (epos alts 0).
+  or_jumps (dnf_code alts 2 (2 + total_lits alts) ++ [ILoadElt; IYield]) = rev (epos alts 0).
 Proof.
   intros alts H. assert (Hall : Forall (fun ls => ls <> []) alts) by (destruct H; assumption).
-  change 2 with (pos_of 0) at 1. replace (2 + 2 * total_lits alts) with (pos_of (0 + 2 * total_lits alts)) by (unfold pos_of; lia).
-  apply (or_jumps_body_only _ (0 + 2 * total_lits alts)).
+  change 2 with (pos_of 0) at 1. replace (2 + total_lits alts) with (pos_of (0 + total_lits alts)) by (unfold pos_of; lia).
+  apply (or_jumps_body_only _ (0 + total_lits alts)).
   - rewrite conditions_end_from, ce_from_app, ce_from_dnf_code by assumption. reflexivity.
   - rewrite jumps_to_from, jumps_from_app, jf_dnf_body by assumption. cbn [jumps_from target_of]. apply app_nil_r.
   - apply epos_sorted. assumption.
@@ -479,7 +562,21 @@ Proof.
 Qed.
 
 (* ------------------------------------------------------------------ the merge loop of process_target on chains of clauses *)
-Definition dlit (l : lit) : dn := match l with Lit false n => DAtom 0 0 n | Lit true n => DNot 0 0 (DAtom 0 0 n) end.
+(* value of a literal before its jump, and the node the decompiler makes of the literal *)
+Definition dval (l : lit) : dn :=
+  match l with
+  | Lit _ n => DAtom 0 0 n
+  | LCmp _ ne a b => DCmp 0 0 ne (DAtom 0 0 a) (DAtom 0 0 b)
+  | LIsN _ a => DAtom 0 0 a
+  end.
+Definition dlit (l : lit) : dn :=
+  match l with
+  | Lit false n => DAtom 0 0 n
+  | Lit true n => DNot 0 0 (DAtom 0 0 n)
+  | LCmp false ne a b => DCmp 0 0 ne (DAtom 0 0 a) (DAtom 0 0 b)
+  | LCmp true ne a b => DNot 0 0 (DCmp 0 0 ne (DAtom 0 0 a) (DAtom 0 0 b))
+  | LIsN isnot a => DIsNone 0 0 isnot (DAtom 0 0 a)
+  end.
 
 (* one-operand clauses as the conditional jumps push them: (identity, operand) in push order *)
 Definition cl (o : bool) (t : nat) (l : list (nat * dn)) : list dn := map (fun x => DBool (fst x) t o [snd x]) l.
@@ -573,20 +670,6 @@ Proof. intros orj ce n i s H. unfold step. rewrite H. reflexivity. Qed.
 Lemma has_target_push : forall d s p, has_target (push d s) p = has_target s p.
 Proof. reflexivity. Qed.
 
-(* a conditional jump that is classified AND (position before conditions_end, not an or-jump), nothing pending at the next
-   position: pushes the one-operand clause and registers it for its target *)
-Lemma cond_jump_and : forall orj ce p nextp endpos neg n s,
-  Nat.leb ce p = false -> existsb (Nat.eqb p) orj = false -> has_target s nextp = false ->
-  cond_jump orj ce [] p nextp endpos neg None (push (DAtom 0 0 n) s) =
-  Some (mkState (DBool (nextid s) endpos false [dlit (Lit neg n)] :: stack s) (tsetdefault (targets s) endpos (nextid s)) (S (nextid s))).
-Proof.
-  intros orj ce p nextp endpos neg n s Hce Horj Hnt. unfold cond_jump.
-  cbn [pop push stack targets nextid]. rewrite Hce, Horj. cbn [existsb orb].
-  cbn [negb].
-  match goal with |- context [has_target ?a nextp] => change (has_target a nextp) with (has_target s nextp) end.
-  rewrite Hnt. cbn [pop push stack targets nextid]. destruct neg; reflexivity.
-Qed.
-
 (* ------------------------------------------------------------------ the `targets` table *)
 Lemma tget_tsetdefault : forall ts t i p,
   tget (tsetdefault ts t i) p = match tget ts p with Some x => Some x | None => if Nat.eqb t p then (match tget ts t with Some y => None | None => Some i end) else None end.
@@ -640,10 +723,6 @@ Proof.
   - cbn [tget] in H. destruct (Nat.eqb q t); [discriminate|]. f_equal. apply IH. assumption.
 Qed.
 
-(* ------------------------------------------------------------------ a run of literals with AND-classified jumps to one target *)
-Fixpoint chain_code (mk : bool -> instr) (ls : list lit) : list instr :=
-  match ls with [] => [] | Lit neg n :: r => ILoad n :: mk neg :: chain_code mk r end.
-
 Definition chain_items (id0 : nat) (ls : list lit) : list (nat * dn) := combine (seq id0 (length ls)) (map dlit ls).
 
 Lemma chain_items_cons : forall id0 l r, chain_items id0 (l :: r) = (id0, dlit l) :: chain_items (S id0) r.
@@ -660,68 +739,110 @@ Proof.
   - apply IH in H. cbn [length]. lia.
 Qed.
 
-Definition mk_jump (back : bool) (t : nat) (neg : bool) : instr := if back then IBack neg else IJump neg t.
-Definition eff_target (back : bool) (t : nat) : nat := if back then TOP else t.
+(* ------------------------------------------------------------------ one literal: its value, then its jump *)
+Definition tpos (tg : tgt) : nat := match tg with TTop => TOP | TAt t => t end.
 
-Lemma run_chain : forall orj ce back t ls rest i s,
-  (forall k, k <= 2 * length ls -> has_target s (pos_of (i + k)) = false) ->
-  (forall k, k <= 2 * length ls -> eff_target back t <> pos_of (i + k)) ->
-  (forall k, k < length ls -> Nat.leb ce (pos_of (i + 2 * k + 1)) = false /\ existsb (Nat.eqb (pos_of (i + 2 * k + 1))) orj = false) ->
-  run orj ce [] (chain_code (mk_jump back t) ls ++ rest) i s =
-  run orj ce [] rest (i + 2 * length ls)
-      (mkState (rev (cl false (eff_target back t) (chain_items (nextid s) ls)) ++ stack s)
-               (match ls with [] => targets s | _ => tsetdefault (targets s) (eff_target back t) (nextid s) end)
+Lemma step_cmp : forall orj ce ne i a b s, has_target s (pos_of i) = false ->
+  step orj ce [] (ICmp ne) i (push b (push a s)) = Some (push (DCmp 0 0 ne a b) s).
+Proof.
+  intros orj ce ne i a b s H. unfold step. rewrite !has_target_push, H. cbn [pop push stack targets nextid].
+  destruct s; reflexivity.
+Qed.
+
+Lemma run_lval : forall orj ce l rest i s,
+  (forall k, k < length (lval l) -> has_target s (pos_of (i + k)) = false) ->
+  run orj ce [] (lval l ++ rest) i s = run orj ce [] rest (i + length (lval l)) (push (dval l) s).
+Proof.
+  intros orj ce l rest i s H.
+  assert (H0 : has_target s (pos_of i) = false) by (rewrite <- (Nat.add_0_r i); apply H; destruct l; cbn; lia).
+  destruct l as [neg n|neg ne a b|isnot a]; cbn [lval app length dval].
+  - rewrite (run_cons orj ce (ILoad n) _ i s _ eq_refl (step_load orj ce n i s H0)). f_equal. lia.
+  - assert (H1 : has_target s (pos_of (S i)) = false) by (replace (S i) with (i + 1) by lia; apply H; cbn; lia).
+    assert (H2 : has_target s (pos_of (S (S i))) = false) by (replace (S (S i)) with (i + 2) by lia; apply H; cbn; lia).
+    rewrite (run_cons orj ce (ILoad a) _ i s _ eq_refl (step_load orj ce a i s H0)).
+    rewrite (run_cons orj ce (ILoad b) _ (S i) _ _ eq_refl (step_load orj ce b (S i) (push (DAtom 0 0 a) s) H1)).
+    rewrite (run_cons orj ce (ICmp ne) _ (S (S i)) _ _ eq_refl (step_cmp orj ce ne (S (S i)) _ _ s H2)).
+    f_equal. lia.
+  - rewrite (run_cons orj ce (ILoad a) _ i s _ eq_refl (step_load orj ce a i s H0)). f_equal. lia.
+Qed.
+
+(* the conditional jump of a literal, classified OR when it jumps on true and is an or-jump, AND when it jumps on false
+   and is none; whatever is pending at the next position is merged first (conditional_jump_new / _none_impl) *)
+Lemma lit_jump : forall orj ce l c tg q s e2 stk' ts',
+  has_target s (pos_of q) = false -> Nat.leb ce (pos_of q) = false -> existsb (Nat.eqb (pos_of q)) orj = c ->
+  (if has_target s (pos_of (S q)) then process_target false (pos_of (S q)) (push (dlit l) s) else Some (push (dlit l) s))
+    = Some (mkState (e2 :: stk') ts' (nextid s)) ->
+  step orj ce [] (ljmp l c tg) q (push (dval l) s) =
+  Some (mkState (DBool (nextid s) (tpos tg) c [e2] :: stk') (tsetdefault ts' (tpos tg) (nextid s)) (S (nextid s))).
+Proof.
+  intros orj ce l c tg q s e2 stk' ts' Hnt Hce Horj Hpt.
+  assert (Hlt : Nat.ltb (pos_of q) ce = true) by (apply Nat.ltb_lt; apply Nat.leb_gt in Hce; exact Hce).
+  assert (Hs : {| stack := stack s; targets := targets s; nextid := nextid s |} = s) by (destruct s; reflexivity).
+  unfold step. rewrite has_target_push, Hnt.
+  destruct l as [neg n|neg ne a b|isnot a]; destruct tg as [|t]; cbn [ljmp jump_to jump_none_to tpos dval dlit] in *;
+    unfold cond_jump; cbn [pop push stack targets nextid]; rewrite ?Hs, ?Hce, ?Hlt, Horj; cbn [existsb orb negb];
+    destruct c; try destruct neg; try destruct isnot; cbn [negb];
+    match goal with |- context [has_target ?x (pos_of (S q))] => change (has_target x (pos_of (S q))) with (has_target s (pos_of (S q))) end;
+    cbn [push] in Hpt; rewrite Hpt; reflexivity.
+Qed.
+
+(* the common case: nothing pending at the next position *)
+Lemma lit_jump_plain : forall orj ce l c tg q s,
+  has_target s (pos_of q) = false -> has_target s (pos_of (S q)) = false ->
+  Nat.leb ce (pos_of q) = false -> existsb (Nat.eqb (pos_of q)) orj = c ->
+  step orj ce [] (ljmp l c tg) q (push (dval l) s) =
+  Some (mkState (DBool (nextid s) (tpos tg) c [dlit l] :: stack s) (tsetdefault (targets s) (tpos tg) (nextid s)) (S (nextid s))).
+Proof.
+  intros orj ce l c tg q s H0 H1 Hce Horj. apply lit_jump; try assumption. rewrite H1. destruct s; reflexivity.
+Qed.
+
+(* ------------------------------------------------------------------ a run of literals jumping on the same value to one target *)
+Lemma run_chain : forall orj ce c tg ls rest i s,
+  (forall k, k <= lws ls -> has_target s (pos_of (i + k)) = false) ->
+  (forall k, k <= lws ls -> tpos tg <> pos_of (i + k)) ->
+  (forall k, k < lws ls -> Nat.leb ce (pos_of (i + k)) = false) ->
+  (forall pre l post, ls = pre ++ l :: post -> existsb (Nat.eqb (pos_of (i + lws pre + length (lval l)))) orj = c) ->
+  run orj ce [] (chain_code c tg ls ++ rest) i s =
+  run orj ce [] rest (i + lws ls)
+      (mkState (rev (cl c (tpos tg) (chain_items (nextid s) ls)) ++ stack s)
+               (match ls with [] => targets s | _ => tsetdefault (targets s) (tpos tg) (nextid s) end)
                (nextid s + length ls)).
 Proof.
-  intros orj ce back t ls. induction ls as [|[neg n] r IH]; intros rest i s Hnt Htt Hcl.
-  - cbn [chain_code app length chain_items combine seq map cl rev]. rewrite !Nat.add_0_r. destruct s; reflexivity.
-  - cbn [chain_code app].
-    assert (H0 : has_target s (pos_of i) = false) by (rewrite <- (Nat.add_0_r i); apply Hnt; lia).
-    assert (H1 : has_target s (pos_of (S i)) = false) by (replace (S i) with (i + 1) by lia; apply Hnt; cbn [length]; lia).
-    assert (H2 : has_target s (pos_of (S (S i))) = false) by (replace (S (S i)) with (i + 2) by lia; apply Hnt; cbn [length]; lia).
-    rewrite (run_cons orj ce (ILoad n) _ i s (push (DAtom 0 0 n) s) eq_refl (step_load orj ce n i s H0)).
-    assert (Hstep : step orj ce [] (mk_jump back t neg) (S i) (push (DAtom 0 0 n) s) =
-                    Some (mkState (DBool (nextid s) (eff_target back t) false [dlit (Lit neg n)] :: stack s)
-                                  (tsetdefault (targets s) (eff_target back t) (nextid s)) (S (nextid s)))).
-    { unfold step. rewrite has_target_push, H1.
-      destruct (Hcl 0 ltac:(cbn [length]; lia)) as [Hce Horj]. rewrite Nat.mul_0_r, Nat.add_0_r in Hce, Horj.
-      replace (i + 1) with (S i) in Hce, Horj by lia.
-      unfold mk_jump, eff_target. destruct back; apply cond_jump_and; assumption. }
-    assert (Hfin : is_final (mk_jump back t neg) = false) by (unfold mk_jump; destruct back; reflexivity).
-    rewrite (run_cons orj ce _ _ (S i) _ _ Hfin Hstep).
+  intros orj ce c tg ls. induction ls as [|l r IH]; intros rest i s Hnt Htt Hce Horj.
+  - cbn [chain_code app length chain_items combine seq map cl rev lws]. rewrite !Nat.add_0_r. destruct s; reflexivity.
+  - cbn [chain_code lws] in *. rewrite <- app_assoc. cbn [app].
+    assert (Hlw : lw l = length (lval l) + 1) by reflexivity.
+    rewrite run_lval by (intros k Hk; apply Hnt; lia).
+    set (q := i + length (lval l)).
+    assert (Hstep : step orj ce [] (ljmp l c tg) q (push (dval l) s) =
+                    Some (mkState (DBool (nextid s) (tpos tg) c [dlit l] :: stack s) (tsetdefault (targets s) (tpos tg) (nextid s)) (S (nextid s)))).
+    { apply lit_jump_plain.
+      - apply Hnt. lia.
+      - replace (S q) with (i + lw l) by (unfold q; lia). apply Hnt. lia.
+      - apply Hce. pose proof (lw_pos l). lia.
+      - specialize (Horj [] l r eq_refl). cbn [lws] in Horj. rewrite Nat.add_0_r in Horj. exact Horj. }
+    destruct (ljmp_facts l c tg) as [_ [_ [Hfin _]]].
+    rewrite (run_cons orj ce (ljmp l c tg) _ q _ _ Hfin Hstep).
+    replace (S q) with (i + lw l) by (unfold q; lia).
     rewrite IH.
     + cbn [stack targets nextid length]. f_equal; [lia|].
       rewrite chain_items_cons. unfold cl. cbn [map rev fst snd]. rewrite <- app_assoc. cbn [app].
       f_equal.
       * destruct r as [|l2 r2]; [reflexivity|].
-        assert (Hg : tget (targets s) (eff_target back t) = None \/ exists x, tget (targets s) (eff_target back t) = Some x)
-          by (destruct (tget (targets s) (eff_target back t)); [right; eexists; reflexivity | left; reflexivity]).
+        assert (Hg : tget (targets s) (tpos tg) = None \/ exists x, tget (targets s) (tpos tg) = Some x)
+          by (destruct (tget (targets s) (tpos tg)); [right; eexists; reflexivity | left; reflexivity]).
         destruct Hg as [Hg|[x Hg]].
         -- apply (tsetdefault_present _ _ _ (nextid s)). apply tget_tsetdefault_same. assumption.
         -- rewrite (tsetdefault_present _ _ _ _ Hg). apply (tsetdefault_present _ _ _ _ Hg).
       * lia.
     + intros k Hk. cbn [stack targets nextid]. rewrite has_target_setdefault.
-      * replace (S (S i) + k) with (i + (2 + k)) by lia. destruct s. apply Hnt. cbn [length]. lia.
-      * replace (S (S i) + k) with (i + (2 + k)) by lia. apply Htt. cbn [length]. lia.
-    + intros k Hk. replace (S (S i) + k) with (i + (2 + k)) by lia. apply Htt. cbn [length]. lia.
-    + intros k Hk. replace (S (S i) + 2 * k + 1) with (i + 2 * (S k) + 1) by lia. apply Hcl. cbn [length]. lia.
-Qed.
-
-(* ------------------------------------------------------------------ conditional jump followed by a pending target *)
-Lemma cond_jump_general : forall orj ce p nextp endpos (c : bool) n s isor d e2 stk' ts',
-  Nat.leb ce p = false ->
-  (if existsb (Nat.eqb p) orj then (true, if c then DAtom 0 0 n else DNot 0 0 (DAtom 0 0 n))
-   else (false, if c then DNot 0 0 (DAtom 0 0 n) else DAtom 0 0 n)) = (isor, d) ->
-  (if has_target s nextp then process_target false nextp (push d s) else Some (push d s)) = Some (mkState (e2 :: stk') ts' (nextid s)) ->
-  cond_jump orj ce [] p nextp endpos c None (push (DAtom 0 0 n) s) =
-  Some (mkState (DBool (nextid s) endpos isor [e2] :: stk') (tsetdefault ts' endpos (nextid s)) (S (nextid s))).
-Proof.
-  intros orj ce p nextp endpos c n s isor d e2 stk' ts' Hce Hcls Hpt. unfold cond_jump.
-  cbn [pop push stack targets nextid]. rewrite Hce. cbn [existsb orb].
-  assert (Hs : {| stack := stack s; targets := targets s; nextid := nextid s |} = s) by (destruct s; reflexivity).
-  rewrite Hs. rewrite Hcls. cbn [negb].
-  change (has_target (push d s) nextp) with (has_target s nextp). rewrite Hpt.
-  cbn [pop stack targets nextid]. reflexivity.
+      * replace (i + lw l + k) with (i + (lw l + k)) by lia. unfold has_target in *. cbn [targets] in *. apply Hnt. lia.
+      * replace (i + lw l + k) with (i + (lw l + k)) by lia. apply Htt. lia.
+    + intros k Hk. replace (i + lw l + k) with (i + (lw l + k)) by lia. apply Htt. lia.
+    + intros k Hk. replace (i + lw l + k) with (i + (lw l + k)) by lia. apply Hce. lia.
+    + intros pre l0 post Heq. specialize (Horj (l :: pre) l0 post). cbn [app lws] in Horj.
+      replace (i + lw l + lws pre + length (lval l0)) with (i + (lw l + lws pre) + length (lval l0)) by lia.
+      apply Horj. rewrite Heq. reflexivity.
 Qed.
 
 Lemma process_target_lim : forall pos s top stk lim,
@@ -736,22 +857,22 @@ Proof.
   replace (pos =? 0) with false by (symmetry; apply Nat.eqb_neq; assumption). reflexivity.
 Qed.
 
-Lemma alt_fwd_snoc : forall ls0 neg n a b,
-  alt_fwd (ls0 ++ [Lit neg n]) a b = chain_code (mk_jump false a) ls0 ++ [ILoad n; IJump (negb neg) b].
+Lemma alt_fwd_snoc : forall ls0 l a b,
+  alt_fwd (ls0 ++ [l]) a b = chain_code false (TAt a) ls0 ++ lval l ++ [ljmp l true (TAt b)].
 Proof.
-  induction ls0 as [|[neg0 n0] r IH]; intros neg n a b; [reflexivity|].
-  cbn [app alt_fwd chain_code mk_jump]. destruct (r ++ [Lit neg n]) eqn:E; [destruct r; discriminate|].
-  rewrite <- E, IH. reflexivity.
+  induction ls0 as [|l0 r IH]; intros l a b; [reflexivity|].
+  cbn [app alt_fwd chain_code]. destruct (r ++ [l]) eqn:E; [destruct r; discriminate|].
+  rewrite <- E, IH. rewrite <- app_assoc. reflexivity.
 Qed.
 
-Lemma and_back_chain : forall ls t, and_back ls = chain_code (mk_jump true t) ls.
-Proof. induction ls as [|[neg n] r IH]; intro t; [reflexivity|]. cbn [and_back chain_code mk_jump]. rewrite (IH t). reflexivity. Qed.
-
 Lemma plain_dlit : forall o l, plain_for o (dlit l).
-Proof. intros o [[] n]; repeat split. Qed.
+Proof. intros o [[] n|[] ne a b|isnot a]; repeat split. Qed.
 
 Lemma same_id_dlit : forall l lim, same_id (dlit l) lim = false.
-Proof. intros [[] n] [j|]; try reflexivity; unfold same_id; cbn [dlit id_of]; destruct j; reflexivity. Qed.
+Proof. intros [[] n|[] ne a b|isnot a] [j|]; try reflexivity; unfold same_id; cbn [dlit id_of]; destruct j; reflexivity. Qed.
+
+Lemma ep_dlit : forall l, ep_of (dlit l) = 0.
+Proof. intros [[] n|[] ne a b|isnot a]; reflexivity. Qed.
 
 (* the node an alternative decompiles to *)
 Definition alt_node (id0 t : nat) (ls : list lit) : dn :=
@@ -763,83 +884,85 @@ Proof. intros id0 [|l r] d0 H; [congruence|]. reflexivity. Qed.
 (* scenario 1: an alternative that is not the last one *)
 Lemma run_alt : forall orj ce ls body rest i s,
   ls <> [] -> 1 <= nextid s ->
-  (forall k, k <= 2 * length ls -> has_target s (pos_of (i + k)) = false) ->
-  (forall k, k <= 2 * length ls -> body <> pos_of (i + k)) ->
-  (forall k, k < length ls -> Nat.leb ce (pos_of (i + 2 * k + 1)) = false) ->
-  (forall k, k + 1 < length ls -> existsb (Nat.eqb (pos_of (i + 2 * k + 1))) orj = false) ->
-  existsb (Nat.eqb (pos_of (i + 2 * length ls - 1))) orj = true ->
-  run orj ce [] (alt_fwd ls (pos_of (i + 2 * length ls)) body ++ rest) i s =
-  run orj ce [] rest (i + 2 * length ls)
-      (mkState (DBool (nextid s + length ls - 1) body true [alt_node (nextid s) (pos_of (i + 2 * length ls)) ls] :: stack s)
+  (forall k, k <= lws ls -> has_target s (pos_of (i + k)) = false) ->
+  (forall k, k <= lws ls -> body <> pos_of (i + k)) ->
+  (forall k, k < lws ls -> Nat.leb ce (pos_of (i + k)) = false) ->
+  (forall k, k + 1 < lws ls -> existsb (Nat.eqb (pos_of (i + k))) orj = false) ->
+  existsb (Nat.eqb (pos_of (i + lws ls - 1))) orj = true ->
+  run orj ce [] (alt_fwd ls (pos_of (i + lws ls)) body ++ rest) i s =
+  run orj ce [] rest (i + lws ls)
+      (mkState (DBool (nextid s + length ls - 1) body true [alt_node (nextid s) (pos_of (i + lws ls)) ls] :: stack s)
                (tsetdefault (targets s) body (nextid s + length ls - 1))
                (nextid s + length ls)).
 Proof.
   intros orj ce ls body rest i s Hne Hid Hnt Hbody Hce Hand Hor.
-  destruct (exists_last Hne) as [ls0 [[neg n] Hls]]. subst ls.
-  rewrite app_length in *. cbn [length] in *.
-  set (nextalt := pos_of (i + 2 * (length ls0 + 1))) in *.
+  destruct (exists_last Hne) as [ls0 [l Hls]]. subst ls.
+  rewrite app_length, lws_app in *. cbn [length lws] in *. rewrite Nat.add_0_r in *.
+  assert (Hlw : lw l = length (lval l) + 1) by reflexivity.
+  set (nextalt := pos_of (i + (lws ls0 + lw l))) in *.
   rewrite alt_fwd_snoc, <- app_assoc.
   rewrite run_chain.
   2:{ intros k Hk. apply Hnt. lia. }
-  2:{ intros k Hk. unfold eff_target, nextalt, pos_of. lia. }
-  2:{ intros k Hk. split; [apply Hce; lia | apply Hand; lia]. }
-  set (s1 := {| stack := rev (cl false (eff_target false nextalt) (chain_items (nextid s) ls0)) ++ stack s;
-                targets := match ls0 with [] => targets s | _ :: _ => tsetdefault (targets s) (eff_target false nextalt) (nextid s) end;
+  2:{ intros k Hk. cbn [tpos]. unfold nextalt, pos_of. lia. }
+  2:{ intros k Hk. apply Hce. lia. }
+  2:{ intros pre l0 post Heq. replace (i + lws pre + length (lval l0)) with (i + (lws pre + length (lval l0))) by lia.
+      apply Hand. rewrite Heq, lws_app. cbn [lws]. unfold lw. lia. }
+  cbn [tpos].
+  set (s1 := {| stack := rev (cl false nextalt (chain_items (nextid s) ls0)) ++ stack s;
+                targets := match ls0 with [] => targets s | _ :: _ => tsetdefault (targets s) nextalt (nextid s) end;
                 nextid := nextid s + length ls0 |}).
-  set (i1 := i + 2 * length ls0).
-  assert (Hnt1 : forall k, k <= 1 -> has_target s1 (pos_of (i1 + k)) = false).
+  set (i1 := i + lws ls0).
+  assert (Hnt1 : forall k, k < lw l -> has_target s1 (pos_of (i1 + k)) = false).
   { intros k Hk. unfold s1. destruct ls0 as [|l0 r0].
-    - unfold has_target in *. cbn [targets] in *. unfold i1. rewrite <- Nat.add_assoc. apply Hnt. cbn [length]. lia.
+    - unfold has_target in *. cbn [targets] in *. unfold i1. rewrite <- Nat.add_assoc. apply Hnt. lia.
     - rewrite has_target_setdefault.
       + unfold has_target in *. cbn [targets] in *. unfold i1. rewrite <- Nat.add_assoc. apply Hnt. lia.
-      + unfold eff_target, nextalt, i1, pos_of. lia. }
-  cbn [app].
-  rewrite (run_cons orj ce (ILoad n) _ i1 s1 (push (DAtom 0 0 n) s1) eq_refl
-             (step_load orj ce n i1 s1 ltac:(rewrite <- (Nat.add_0_r i1); apply Hnt1; lia))).
-  assert (Hstep : step orj ce [] (IJump (negb neg) body) (S i1) (push (DAtom 0 0 n) s1) =
-                  Some (mkState (DBool (nextid s + (length ls0 + 1) - 1) body true [alt_node (nextid s) nextalt (ls0 ++ [Lit neg n])] :: stack s)
+      + unfold nextalt, i1, pos_of. lia. }
+  rewrite <- app_assoc. rewrite run_lval by (intros k Hk; apply Hnt1; lia).
+  set (q := i1 + length (lval l)).
+  assert (Hq : S q = i + (lws ls0 + lw l)) by (unfold q, i1; lia).
+  assert (Hstep : step orj ce [] (ljmp l true (TAt body)) q (push (dval l) s1) =
+                  Some (mkState (DBool (nextid s + (length ls0 + 1) - 1) body true [alt_node (nextid s) nextalt (ls0 ++ [l])] :: stack s)
                                 (tsetdefault (targets s) body (nextid s + (length ls0 + 1) - 1))
                                 (nextid s + (length ls0 + 1)))).
-  { unfold step. rewrite has_target_push. replace (S i1) with (i1 + 1) by lia. rewrite Hnt1 by lia.
-    replace (pos_of (S (i1 + 1))) with nextalt by (unfold nextalt, i1, pos_of; lia).
-    assert (HE : existsb (Nat.eqb (pos_of (i1 + 1))) orj = true).
-    { replace (i1 + 1) with (i + 2 * (length ls0 + 1) - 1) by (unfold i1; lia). assumption. }
-    assert (HC : Nat.leb ce (pos_of (i1 + 1)) = false).
-    { replace (i1 + 1) with (i + 2 * length ls0 + 1) by (unfold i1; lia). apply Hce. lia. }
-    replace (nextid s + (length ls0 + 1) - 1) with (nextid s1) by (unfold s1; cbn [nextid]; lia).
+  { replace (nextid s + (length ls0 + 1) - 1) with (nextid s1) by (unfold s1; cbn [nextid]; lia).
     replace (nextid s + (length ls0 + 1)) with (S (nextid s1)) by (unfold s1; cbn [nextid]; lia).
-    apply (cond_jump_general orj ce (pos_of (i1 + 1)) nextalt body (negb neg) n s1 true (dlit (Lit neg n))).
-    - assumption.
-    - rewrite HE. destruct neg; reflexivity.
-    - destruct ls0 as [|l0 r0].
+    apply (lit_jump orj ce l true (TAt body) q s1).
+    - unfold q. apply Hnt1. lia.
+    - replace q with (i + (lws ls0 + length (lval l))) by (unfold q, i1; lia). apply Hce. lia.
+    - replace q with (i + (lws ls0 + lw l) - 1) by (unfold q, i1; lia). exact Hor.
+    - rewrite Hq. fold nextalt.
+      destruct ls0 as [|l0 r0].
       + (* width 1: nothing pending at the next alternative *)
         assert (Hno : has_target s1 nextalt = false).
-        { unfold s1. unfold has_target in *. cbn [targets] in *. unfold nextalt. apply Hnt. cbn [length]. lia. }
+        { unfold s1. unfold has_target in *. cbn [targets] in *. unfold nextalt. apply Hnt. cbn [lws]. lia. }
         rewrite Hno. unfold s1. cbn [push stack targets nextid chain_items length seq map combine cl rev app alt_node]. reflexivity.
       + (* width >= 2: the pending `and` clauses are merged into the first one, which becomes the operand *)
         assert (Hnone : tget (targets s) nextalt = None).
-        { specialize (Hnt (2 * (length (l0 :: r0) + 1)) (le_n _)). unfold has_target in Hnt. fold nextalt in Hnt.
+        { specialize (Hnt (lws (l0 :: r0) + lw l) (le_n _)). unfold has_target in Hnt. fold nextalt in Hnt.
           destruct (tget (targets s) nextalt); [discriminate|reflexivity]. }
         assert (Hyes : tget (targets s1) nextalt = Some (nextid s)).
-        { unfold s1. cbn [targets eff_target]. apply tget_tsetdefault_same. assumption. }
+        { unfold s1. cbn [targets]. apply tget_tsetdefault_same. assumption. }
         assert (Hht : has_target s1 nextalt = true) by (unfold has_target; rewrite Hyes; reflexivity).
         rewrite Hht.
-        rewrite (process_target_lim nextalt (push (dlit (Lit neg n)) s1) (dlit (Lit neg n)) (stack s1) (nextid s) eq_refl
+        rewrite (process_target_lim nextalt (push (dlit l) s1) (dlit l) (stack s1) (nextid s) eq_refl
                    ltac:(unfold nextalt, pos_of; lia) Hyes).
-        cbn [push targets nextid stack]. unfold s1 at 1 2. cbn [stack targets nextid eff_target].
+        cbn [push targets nextid stack]. unfold s1 at 1 2. cbn [stack targets nextid].
         rewrite tdel_tsetdefault by assumption.
         rewrite merge_first; [| apply plain_dlit | apply same_id_dlit | | discriminate].
         * rewrite hd_chain_items by discriminate. rewrite map_snd_chain_items.
-          assert (Hep : ep_of (dlit (Lit neg n)) = 0) by (destruct neg; reflexivity). rewrite Hep, Nat.max_0_r.
+          rewrite ep_dlit, Nat.max_0_r.
           rewrite pt_stop_lim.
-          -- unfold s1. cbn [nextid]. cbn [alt_node app map]. 
-             destruct (r0 ++ [Lit neg n]) eqn:E; [destruct r0; discriminate|]. rewrite <- E.
+          -- unfold s1. cbn [nextid]. cbn [alt_node app map].
+             destruct (r0 ++ [l]) eqn:E; [destruct r0; discriminate|]. rewrite <- E.
              rewrite map_app. reflexivity.
-          -- cbn [map app]. destruct (map dlit r0 ++ [dlit (Lit neg n)]) eqn:E; [destruct r0; discriminate|]. apply simplify_multi.
+          -- cbn [map app]. destruct (map dlit r0 ++ [dlit l]) eqn:E; [destruct r0; discriminate|]. apply simplify_multi.
           -- unfold same_id. cbn [id_of]. rewrite Nat.eqb_refl. destruct (nextid s); [lia|reflexivity].
         * intros k d Hin. rewrite chain_items_cons in Hin. cbn [tl] in Hin. apply chain_items_ids in Hin. cbn [not_lim]. lia. }
-  rewrite (run_cons orj ce (IJump (negb neg) body) _ (S i1) _ _ eq_refl Hstep).
-  f_equal. unfold i1. lia.
+  destruct (ljmp_facts l true (TAt body)) as [_ [_ [Hfin _]]].
+  cbn [app].
+  rewrite (run_cons orj ce (ljmp l true (TAt body)) _ q _ _ Hfin Hstep).
+  f_equal. lia.
 Qed.
 
 (* ------------------------------------------------------------------ the end of the stream: LOAD_FAST x ; YIELD_VALUE *)
@@ -865,12 +988,19 @@ Proof.
   cbn [pop stack targets nextid]. rewrite Hc. cbn [is_comp]. reflexivity.
 Qed.
 
-Definition lit_pt (l : lit) : ptree := match l with Lit false n => PAtom n | Lit true n => PNot (PAtom n) end.
+Definition lit_pt (l : lit) : ptree :=
+  match l with
+  | Lit false n => PAtom n
+  | Lit true n => PNot (PAtom n)
+  | LCmp false ne a b => PCmp ne (PAtom a) (PAtom b)
+  | LCmp true ne a b => PNot (PCmp ne (PAtom a) (PAtom b))
+  | LIsN isnot a => PIsNone isnot (PAtom a)
+  end.
 Definition alt_pt (ls : list lit) : ptree := match ls with [l] => lit_pt l | _ => PBool false (map lit_pt ls) end.
 
 Lemma strip_dlit : forall l, strip (dlit l) = lit_pt l.
-Proof. intros [[] n]; reflexivity. Qed.
-Lemma strip_set_ep : forall d e, strip (set_ep d e) = strip d.
+Proof. intros [[] n|[] ne a b|isnot a]; reflexivity. Qed.
+Lemma strip_set_ep : forall d e0, strip (set_ep d e0) = strip d.
 Proof. intros [] e0; reflexivity. Qed.
 Lemma map_strip_dlit : forall ls, map strip (map dlit ls) = map lit_pt ls.
 Proof. intros ls. rewrite map_map. apply map_ext. apply strip_dlit. Qed.
@@ -887,34 +1017,50 @@ Proof.
   cbn [app combine]. f_equal. apply IH. injection H as H. exact H.
 Qed.
 
+Lemma chain_items_snoc : forall id0 ls l, chain_items id0 (ls ++ [l]) = chain_items id0 ls ++ [(id0 + length ls, dlit l)].
+Proof.
+  intros id0 ls l. unfold chain_items. rewrite app_length, seq_app, map_app. cbn [length seq map].
+  rewrite combine_app' by (rewrite seq_length, map_length; reflexivity). reflexivity.
+Qed.
+
+(* the last operand of a chain of `and` clauses pending at the loop top, once simplified *)
+Definition top_lit (l : lit) : dn := set_ep (dlit l) TOP.
+
+Lemma top_lit_facts : forall l k,
+  simplify (DBool k TOP false [dlit l]) = top_lit l /\ plain_for false (top_lit l) /\
+  (forall lim, same_id (top_lit l) lim = false) /\ strip (top_lit l) = lit_pt l.
+Proof.
+  intros l k. unfold top_lit. split; [|split; [|split]].
+  - cbn [simplify]. rewrite ep_dlit. reflexivity.
+  - destruct l as [[] n|[] ne a b|isnot a]; repeat split.
+  - intros [j|]; [|reflexivity]. destruct l as [[] n|[] ne a b|isnot a]; unfold same_id; cbn [dlit set_ep id_of]; destruct j; reflexivity.
+  - rewrite strip_set_ep. apply strip_dlit.
+Qed.
+
 (* scenario 3: the only alternative (a plain `and` of literals, or one literal) *)
 Lemma run_single : forall orj ce ls i s,
   ls <> [] -> 1 <= nextid s -> stack s = [DComp 0 0] -> targets s = [] ->
-  (forall k, k < length ls -> Nat.leb ce (pos_of (i + 2 * k + 1)) = false /\ existsb (Nat.eqb (pos_of (i + 2 * k + 1))) orj = false) ->
+  (forall k, k < lws ls -> Nat.leb ce (pos_of (i + k)) = false /\ existsb (Nat.eqb (pos_of (i + k))) orj = false) ->
   exists final, run orj ce [] (and_back ls ++ [ILoadElt; IYield]) i s = RGen (DElt 0 0) [[final]] /\ strip final = alt_pt ls.
 Proof.
   intros orj ce ls i s Hne Hid Hst Hts Hcl.
-  rewrite (and_back_chain ls 0). rewrite run_chain; [| | |assumption].
+  rewrite and_back_chain. rewrite run_chain.
   2:{ intros k Hk. unfold has_target. rewrite Hts. reflexivity. }
-  2:{ intros k Hk. unfold eff_target, TOP, pos_of. lia. }
-  cbn [eff_target]. rewrite Hst, Hts.
+  2:{ intros k Hk. cbn [tpos]. unfold TOP, pos_of. lia. }
+  2:{ intros k Hk. apply Hcl. exact Hk. }
+  2:{ intros pre l post Heq. replace (i + lws pre + length (lval l)) with (i + (lws pre + length (lval l))) by lia.
+      apply Hcl. rewrite Heq, lws_app. cbn [lws]. unfold lw. lia. }
+  cbn [tpos]. rewrite Hst, Hts.
   destruct (exists_last Hne) as [ls0 [l Hls]]. subst ls.
   set (s1 := {| stack := _; targets := _; nextid := _ |}).
   assert (Hts1 : targets s1 = [(TOP, nextid s)]).
   { unfold s1. cbn [targets]. destruct (ls0 ++ [l]) eqn:E; [destruct ls0; discriminate|]. reflexivity. }
   assert (Hnt : forall p, 2 <= p -> has_target s1 p = false).
   { intros p Hp. unfold has_target. rewrite Hts1. cbn [tget]. unfold TOP. destruct p as [|[|p]]; try lia. reflexivity. }
-  assert (Hitems : chain_items (nextid s) (ls0 ++ [l]) = chain_items (nextid s) ls0 ++ [(nextid s + length ls0, dlit l)]).
-  { unfold chain_items. rewrite app_length, seq_app, map_app. cbn [length seq map].
-    rewrite combine_app' by (rewrite seq_length, map_length; reflexivity). reflexivity. }
   assert (Hstk : stack s1 = DBool (nextid s + length ls0) TOP false [dlit l] :: rev (cl false TOP (chain_items (nextid s) ls0)) ++ [DComp 0 0]).
-  { unfold s1. cbn [stack]. rewrite Hitems. unfold cl. rewrite map_app, rev_app_distr. reflexivity. }
-  set (top' := set_ep (dlit l) TOP).
-  assert (Hsimp : simplify (DBool (nextid s + length ls0) TOP false [dlit l]) = top').
-  { cbn [simplify]. assert (Hep : ep_of (dlit l) = 0) by (destruct l as [[] n]; reflexivity). rewrite Hep. reflexivity. }
-  assert (Hplain : plain_for false top') by (unfold top'; destruct l as [[] n]; repeat split).
-  assert (Hsid : forall lim, same_id top' lim = false).
-  { intros [j|]; [|reflexivity]. unfold top'. destruct l as [[] n]; unfold same_id; cbn [dlit set_ep id_of]; destruct j; reflexivity. }
+  { unfold s1. cbn [stack]. rewrite chain_items_snoc. unfold cl. rewrite map_app, rev_app_distr. reflexivity. }
+  destruct (top_lit_facts l (nextid s + length ls0)) as [Hsimp [Hplain [Hsid Hstrip]]].
+  set (top' := top_lit l) in *.
   destruct ls0 as [|l0 r0].
   - (* one literal *)
     exists top'. split.
@@ -927,7 +1073,7 @@ Proof.
         cbn [app rev cl chain_items map combine seq length].
         rewrite pt_stop_comp; [reflexivity | destruct Hplain as [H _]; exact H | apply Hsid | destruct Hplain as [_ [H _]]; exact H].
       * destruct Hplain as [_ [H _]]; exact H.
-    + unfold top'. rewrite strip_set_ep, strip_dlit. reflexivity.
+    + exact Hstrip.
   - (* an `and` of at least two literals *)
     exists (DBool (nextid s) (Nat.max TOP (ep_of top')) false (map dlit (l0 :: r0) ++ [top'])). split.
     + eapply run_elt_yield.
@@ -941,7 +1087,7 @@ Proof.
         rewrite pt_stop_comp; [reflexivity| | reflexivity | reflexivity].
         cbn [map app]. destruct (map dlit r0 ++ [top']) eqn:E; [destruct r0; discriminate|]. apply simplify_multi.
       * reflexivity.
-    + cbn [strip]. rewrite map_app, map_strip_dlit. cbn [map]. unfold top'. rewrite strip_set_ep, strip_dlit.
+    + cbn [strip]. rewrite map_app, map_strip_dlit. cbn [map]. rewrite Hstrip.
       unfold alt_pt. destruct ((l0 :: r0) ++ [l]) as [|x [|y z]] eqn:E.
       * discriminate.
       * destruct r0; discriminate.
@@ -952,31 +1098,34 @@ Qed.
 Lemma run_last : forall orj ce ls i s ors k1 d1 orest,
   ls <> [] -> ors = (k1, d1) :: orest -> 1 <= k1 -> k1 < nextid s ->
   (forall k d, In (k, d) orest -> k <> k1) ->
-  stack s = rev (cl true (pos_of (i + 2 * length ls)) ors) ++ [DComp 0 0] ->
-  targets s = [(pos_of (i + 2 * length ls), k1)] ->
-  ce = pos_of (i + 2 * length ls) ->
-  (forall k, k < length ls -> existsb (Nat.eqb (pos_of (i + 2 * k + 1))) orj = false) ->
+  stack s = rev (cl true (pos_of (i + lws ls)) ors) ++ [DComp 0 0] ->
+  targets s = [(pos_of (i + lws ls), k1)] ->
+  ce = pos_of (i + lws ls) ->
+  (forall k, k < lws ls -> existsb (Nat.eqb (pos_of (i + k))) orj = false) ->
   exists final, run orj ce [] (and_back ls ++ [ILoadElt; IYield]) i s = RGen (DElt 0 0) [[final]] /\
                 strip final = PBool true (map strip (map snd ors) ++ [alt_pt ls]).
 Proof.
   intros orj ce ls i s ors k1 d1 orest Hne Hors Hk1 Hk1n Hrest Hst Hts Hce Horj.
-  destruct (exists_last Hne) as [ls0 [[neg n] Hls]]. subst ls.
-  rewrite app_length in *. cbn [length] in *.
-  set (body := pos_of (i + 2 * (length ls0 + 1))) in *.
-  rewrite (and_back_chain _ 0). 
-  assert (Hcc : chain_code (mk_jump true 0) (ls0 ++ [Lit neg n]) = chain_code (mk_jump true 0) ls0 ++ [ILoad n; IBack neg]).
-  { clear. induction ls0 as [|[a b] r IH]; [reflexivity|]. cbn [app chain_code]. rewrite IH. reflexivity. }
-  rewrite Hcc, <- app_assoc.
-  assert (Hleb : forall k, k < length ls0 + 1 -> Nat.leb ce (pos_of (i + 2 * k + 1)) = false).
+  destruct (exists_last Hne) as [ls0 [l Hls]]. subst ls.
+  rewrite ?lws_app in *. cbn [lws] in *. rewrite ?Nat.add_0_r in *.
+  assert (Hlw : lw l = length (lval l) + 1) by reflexivity.
+  set (body := pos_of (i + (lws ls0 + lw l))) in *.
+  rewrite and_back_chain.
+  assert (Hcc : chain_code false TTop (ls0 ++ [l]) = chain_code false TTop ls0 ++ lval l ++ [ljmp l false TTop]).
+  { clear. induction ls0 as [|a r IH]; [reflexivity|]. cbn [app chain_code]. rewrite IH, <- app_assoc. reflexivity. }
+  rewrite Hcc, <- !app_assoc.
+  assert (Hleb : forall k, k < lws ls0 + lw l -> Nat.leb ce (pos_of (i + k)) = false).
   { intros k Hk. apply Nat.leb_gt. rewrite Hce. unfold body, pos_of. lia. }
   rewrite run_chain.
   2:{ intros k Hk. unfold has_target. rewrite Hts. cbn [tget].
       replace (body =? pos_of (i + k)) with false by (symmetry; apply Nat.eqb_neq; unfold body, pos_of; lia). reflexivity. }
-  2:{ intros k Hk. unfold eff_target, TOP, pos_of. lia. }
-  2:{ intros k Hk. split; [apply Hleb; lia | apply Horj; lia]. }
-  cbn [eff_target]. rewrite Hst, Hts.
+  2:{ intros k Hk. cbn [tpos]. unfold TOP, pos_of. lia. }
+  2:{ intros k Hk. apply Hleb. lia. }
+  2:{ intros pre l0 post Heq. replace (i + lws pre + length (lval l0)) with (i + (lws pre + length (lval l0))) by lia.
+      apply Horj. rewrite Heq, lws_app. cbn [lws]. unfold lw. lia. }
+  cbn [tpos]. rewrite Hst, Hts.
   set (s1 := {| stack := _; targets := _; nextid := _ |}).
-  set (i1 := i + 2 * length ls0).
+  set (i1 := i + lws ls0).
   assert (Hb_top : (body =? TOP) = false) by (apply Nat.eqb_neq; unfold body, TOP, pos_of; lia).
   assert (Hgetb : tget (targets s1) body = Some k1).
   { unfold s1. cbn [targets]. destruct ls0.
@@ -987,11 +1136,11 @@ Proof.
     - cbn [tget]. replace (body =? p) with false by (symmetry; apply Nat.eqb_neq; congruence). reflexivity.
     - rewrite tget_tsetdefault. cbn [tget]. replace (body =? p) with false by (symmetry; apply Nat.eqb_neq; congruence).
       replace (TOP =? p) with false by (symmetry; apply Nat.eqb_neq; unfold TOP; lia). reflexivity. }
-  cbn [app].
-  rewrite (run_cons orj ce (ILoad n) _ i1 s1 (push (DAtom 0 0 n) s1) eq_refl
-             (step_load orj ce n i1 s1 ltac:(apply Hnt1; unfold body, i1, pos_of; lia))).
+  rewrite run_lval by (intros k Hk; apply Hnt1; unfold body, i1, pos_of; lia).
+  set (q := i1 + length (lval l)).
+  assert (Hq : pos_of (S q) = body) by (unfold body, q, i1, pos_of; lia).
   (* the merged operand of the last alternative and the complete `or` *)
-  set (dl := dlit (Lit neg n)).
+  set (dl := dlit l).
   set (lastnode := match ls0 with [] => dl | _ => DBool (nextid s) (Nat.max TOP (ep_of dl)) false (map dlit ls0 ++ [dl]) end).
   set (orall := DBool k1 (Nat.max body (ep_of lastnode)) true (map snd ors ++ [lastnode])).
   assert (Hpl_last : plain_for true lastnode).
@@ -1016,22 +1165,23 @@ Proof.
     - rewrite merge_first; [|apply plain_dlit|apply same_id_dlit| |discriminate].
       + rewrite hd_chain_items by discriminate. rewrite map_snd_chain_items. fold lastnode. unfold orall. apply Hm2; assumption.
       + intros k d Hin. rewrite chain_items_cons in Hin. cbn [tl] in Hin. apply chain_items_ids in Hin. cbn [not_lim]. lia. }
-  assert (Hstep : step orj ce [] (IBack neg) (S i1) (push (DAtom 0 0 n) s1) =
+  assert (Hstep : step orj ce [] (ljmp l false TTop) q (push (dval l) s1) =
                   Some (mkState [DBool (nextid s1) TOP false [orall]; DComp 0 0] (tsetdefault (tdel (targets s1) body) TOP (nextid s1)) (S (nextid s1)))).
-  { unfold step. rewrite has_target_push. rewrite Hnt1 by (unfold body, i1, pos_of; lia).
-    replace (pos_of (S (S i1))) with body by (unfold body, i1, pos_of; lia).
-    apply (cond_jump_general orj ce (pos_of (S i1)) body TOP neg n s1 false dl).
-    - replace (S i1) with (i + 2 * length ls0 + 1) by (unfold i1; lia). apply Hleb. lia.
-    - replace (S i1) with (i + 2 * length ls0 + 1) by (unfold i1; lia). rewrite Horj by lia. unfold dl. destruct neg; reflexivity.
-    - assert (Hht : has_target s1 body = true) by (unfold has_target; rewrite Hgetb; reflexivity).
-      rewrite Hht.
+  { apply (lit_jump orj ce l false TTop q s1).
+    - apply Hnt1; unfold body, q, i1, pos_of; lia.
+    - replace q with (i + (lws ls0 + length (lval l))) by (unfold q, i1; lia). apply Hleb. lia.
+    - replace q with (i + (lws ls0 + length (lval l))) by (unfold q, i1; lia). apply Horj. lia.
+    - rewrite Hq. assert (Hht : has_target s1 body = true) by (unfold has_target; rewrite Hgetb; reflexivity).
+      rewrite Hht. fold dl.
       rewrite (process_target_lim body (push dl s1) dl (stack s1) k1 eq_refl ltac:(unfold body, pos_of; lia) Hgetb).
       cbn [push targets nextid]. rewrite Hloop. reflexivity. }
-  rewrite (run_cons orj ce (IBack neg) _ (S i1) _ _ eq_refl Hstep).
+  destruct (ljmp_facts l false TTop) as [_ [_ [Hfin _]]].
+  cbn [app].
+  rewrite (run_cons orj ce (ljmp l false TTop) _ q _ _ Hfin Hstep).
   exists orall. split.
   - set (s2 := {| stack := _; targets := _; nextid := _ |}).
     assert (Hnt2 : forall p, 2 <= p -> has_target s2 p = false).
-    { intros p Hp. unfold has_target, s2. cbn [targets]. rewrite tget_tsetdefault.
+    { intros p Hp. unfold has_target, s2. cbn [targets tpos]. rewrite tget_tsetdefault.
       destruct (Nat.eq_dec p body) as [->|Hpb].
       - rewrite tget_tdel_same. rewrite Nat.eqb_sym, Hb_top. reflexivity.
       - rewrite tget_tdel_other by congruence. specialize (Hnt1 p Hpb Hp). unfold has_target in Hnt1.
@@ -1040,29 +1190,23 @@ Proof.
     + apply Hnt2. unfold pos_of. lia.
     + apply Hnt2. unfold pos_of. lia.
     + unfold s2. cbn [stack length]. lia.
-    + unfold process_target, s2. cbn [stack targets nextid Nat.eqb orb].
-      rewrite pt_loop_simplify.
-      * assert (Hs : simplify (DBool (nextid s1) TOP false [orall]) = orall).
-        { cbn [simplify]. unfold orall at 1. cbn [ep_of].
-          replace (Nat.max body (ep_of lastnode) <? TOP) with false; [reflexivity|].
-          symmetry. apply Nat.ltb_ge. unfold body, TOP, pos_of. lia. }
-        rewrite Hs. rewrite pt_stop_comp; [reflexivity | assumption | reflexivity | reflexivity].
-      * assert (Hs : simplify (DBool (nextid s1) TOP false [orall]) = orall).
-        { cbn [simplify]. unfold orall at 1. cbn [ep_of].
-          replace (Nat.max body (ep_of lastnode) <? TOP) with false; [reflexivity|].
-          symmetry. apply Nat.ltb_ge. unfold body, TOP, pos_of. lia. }
-        rewrite Hs. assumption.
+    + unfold process_target, s2. cbn [stack targets nextid Nat.eqb orb tpos].
+      assert (Hs : simplify (DBool (nextid s1) TOP false [orall]) = orall).
+      { cbn [simplify]. unfold orall at 1. cbn [ep_of].
+        replace (Nat.max body (ep_of lastnode) <? TOP) with false; [reflexivity|].
+        symmetry. apply Nat.ltb_ge. unfold body, TOP, pos_of. lia. }
+      rewrite pt_loop_simplify; rewrite Hs; [|assumption].
+      rewrite pt_stop_comp; [reflexivity | assumption | reflexivity | reflexivity].
     + reflexivity.
   - unfold orall. cbn [strip]. rewrite map_app. cbn [map]. do 2 f_equal.
     unfold lastnode. destruct ls0 as [|l0 r0].
     + unfold dl. rewrite strip_dlit. reflexivity.
     + cbn [strip]. rewrite map_app, map_strip_dlit. cbn [map]. unfold dl. rewrite strip_dlit.
-      unfold alt_pt. destruct ((l0 :: r0) ++ [Lit neg n]) as [|x [|y z]] eqn:E.
+      unfold alt_pt. destruct ((l0 :: r0) ++ [l]) as [|x [|y z]] eqn:E.
       * discriminate.
       * destruct r0; discriminate.
       * rewrite <- E. rewrite map_app. reflexivity.
 Qed.
-
 (* ------------------------------------------------------------------ all alternatives *)
 Definition expected (ors : list (nat * dn)) (alts : list (list lit)) : ptree :=
   match ors, alts with
@@ -1078,7 +1222,7 @@ Proof. intros f l H. destruct (existsb f l); congruence. Qed.
 
 Lemma run_dnf_from : forall alts orj ce i s ors,
   wf_alts alts ->
-  ce = pos_of (i + 2 * total_lits alts) ->
+  ce = pos_of (i + total_lits alts) ->
   (forall p, pos_of i <= p -> (existsb (Nat.eqb p) orj = true <-> In p (epos alts i))) ->
   stack s = rev (cl true ce ors) ++ [DComp 0 0] ->
   targets s = match ors with [] => [] | x :: _ => [(ce, fst x)] end ->
@@ -1088,11 +1232,11 @@ Lemma run_dnf_from : forall alts orj ce i s ors,
 Proof.
   induction alts as [|ls r IH]; intros orj ce i s ors [Hne Hall] Hce Horj Hst Hts Hid [Hsorted Hrange]; [congruence|].
   inversion Hall as [|a0 b0 Hls Hr]; subst a0 b0.
-  assert (Hl : 1 <= length ls) by (destruct ls; [congruence | cbn [length]; lia]).
+  assert (Hl : 2 <= lws ls) by (apply lws_pos; assumption).
   destruct r as [|ls2 r2].
   - (* the last alternative *)
     cbn [dnf_code]. rewrite total_lits_cons in Hce. cbn [total_lits] in Hce. rewrite Nat.add_0_r in Hce.
-    assert (Hnor : forall k, k < length ls -> existsb (Nat.eqb (pos_of (i + 2 * k + 1))) orj = false).
+    assert (Hnor : forall k, k < lws ls -> existsb (Nat.eqb (pos_of (i + k))) orj = false).
     { intros k Hk. apply existsb_false_of_not_true. intro H. apply Horj in H; [destruct H | unfold pos_of; lia]. }
     destruct ors as [|[k1 d1] orest].
     + destruct (run_single orj ce ls i s Hls Hid Hst Hts) as [final [Hrun Hstrip]].
@@ -1110,20 +1254,21 @@ Proof.
       * exists final. split; [assumption|]. rewrite Hstrip. reflexivity.
   - (* an alternative followed by others *)
     assert (Hwf2 : wf_alts (ls2 :: r2)) by (split; [discriminate|assumption]).
-    assert (Ht : 1 <= total_lits (ls2 :: r2)) by (apply total_lits_pos; assumption).
+    assert (Ht : 2 <= total_lits (ls2 :: r2)) by (apply total_lits_pos; assumption).
     rewrite total_lits_cons in Hce.
     change (dnf_code (ls :: ls2 :: r2) (pos_of i) ce) with
-      (alt_fwd ls (pos_of i + 2 * length ls) ce ++ dnf_code (ls2 :: r2) (pos_of i + 2 * length ls) ce).
-    replace (pos_of i + 2 * length ls) with (pos_of (i + 2 * length ls)) by (unfold pos_of; lia).
+      (alt_fwd ls (pos_of i + lws ls) ce ++ dnf_code (ls2 :: r2) (pos_of i + lws ls) ce).
+    replace (pos_of i + lws ls) with (pos_of (i + lws ls)) by (unfold pos_of; lia).
     rewrite <- app_assoc.
-    assert (HE : In (pos_of (i + 2 * length ls - 1)) (epos (ls :: ls2 :: r2) i)) by (cbn [epos]; left; reflexivity).
-    assert (Hin_rest : forall p, In p (epos (ls2 :: r2) (i + 2 * length ls)) -> pos_of (i + 2 * length ls) < p).
+    assert (HE : In (pos_of (i + lws ls - 1)) (epos (ls :: ls2 :: r2) i)) by (cbn [epos]; left; reflexivity).
+    assert (Hin_rest : forall p, In p (epos (ls2 :: r2) (i + lws ls)) -> pos_of (i + lws ls) < p).
     { intros p Hp. apply (epos_bounds _ _ _ Hr) in Hp. lia. }
     rewrite run_alt; try assumption.
     + (* continue with the remaining alternatives *)
       set (newid := nextid s + length ls - 1).
-      set (A := alt_node (nextid s) (pos_of (i + 2 * length ls)) ls).
-      destruct (IH orj ce (i + 2 * length ls)
+      set (A := alt_node (nextid s) (pos_of (i + lws ls)) ls).
+      assert (Hlen : 1 <= length ls) by (destruct ls; [congruence | cbn [length]; lia]).
+      destruct (IH orj ce (i + lws ls)
                    {| stack := DBool newid ce true [A] :: stack s; targets := tsetdefault (targets s) ce newid; nextid := nextid s + length ls |}
                    (ors ++ [(newid, A)]) Hwf2) as [final [Hrun Hstrip]].
       * rewrite Hce. f_equal. lia.
@@ -1136,7 +1281,7 @@ Proof.
         -- unfold tsetdefault. cbn [tget]. rewrite Nat.eqb_refl. reflexivity.
       * cbn [nextid]. lia.
       * cbn [nextid]. split.
-        -- rewrite map_app. cbn [map fst]. clear - Hsorted Hrange Hl. unfold newid.
+        -- rewrite map_app. cbn [map fst]. clear - Hsorted Hrange Hlen. unfold newid.
            induction (map fst ors) as [|a l IHl]; cbn [app]; [repeat constructor|].
            inversion Hsorted as [|a1 l1 Hs1 Hf1]; subst a1 l1. constructor.
            ++ apply IHl; [assumption|]. intros k Hk. apply Hrange. right. assumption.
@@ -1181,8 +1326,7 @@ Proof.
 Qed.
 
 Lemma to_bexp_lit : forall l, to_bexp (lit_pt l) = Some (lit_bexp l).
-Proof. intros [[] n]; reflexivity. Qed.
-
+Proof. intros [[] n|[] ne a b|isnot a]; reflexivity. Qed.
 Lemma to_bexp_list_lits : forall ls, to_bexp_list (map lit_pt ls) = Some (map lit_bexp ls).
 Proof. induction ls as [|l r IH]; [reflexivity|]. cbn [map to_bexp_list]. rewrite to_bexp_lit, IH. reflexivity. Qed.
 
@@ -1224,15 +1368,30 @@ Proof.
   cbn [vj_from]. destruct x; try (apply IH; intro H1; apply H; right; exact H1). exfalso. apply H. left. reflexivity.
 Qed.
 
+Lemma no_copy_lval : forall l, ~ In ICopy (lval l).
+Proof. intros l H. destruct (lval_facts l _ H) as [_ [_ [Hc _]]]. exact (Hc eq_refl). Qed.
+
+Lemma no_copy_chain : forall c tg ls, ~ In ICopy (chain_code c tg ls).
+Proof.
+  induction ls as [|l r IH]; intro H; [exact H|].
+  cbn [chain_code] in H. apply in_app_or in H. destruct H as [H|[H|H]].
+  - exact (no_copy_lval l H).
+  - destruct (ljmp_facts l c tg) as [Hc _]. exact (Hc H).
+  - exact (IH H).
+Qed.
+
 Lemma no_copy_and_back : forall ls, ~ In ICopy (and_back ls).
-Proof. induction ls as [|[neg n] r IH]; intro H; [exact H|]. cbn [and_back] in H. destruct H as [H|[H|H]]; try discriminate. exact (IH H). Qed.
+Proof. intro ls. rewrite and_back_chain. apply no_copy_chain. Qed.
+
 Lemma no_copy_alt_fwd : forall ls a b, ~ In ICopy (alt_fwd ls a b).
 Proof.
-  induction ls as [|[neg n] r IH]; intros a b H; [exact H|].
+  induction ls as [|l r IH]; intros a b H; [exact H|].
   cbn [alt_fwd] in H. destruct r as [|y s].
-  - destruct H as [H|[H|H]]; try discriminate. exact H.
-  - destruct H as [H|[H|H]]; try discriminate. exact (IH _ _ H).
+  - apply in_app_or in H. destruct H as [H|[H|[]]]; [exact (no_copy_lval l H)|]. destruct (ljmp_facts l true (TAt b)) as [Hc _]. exact (Hc H).
+  - apply in_app_or in H. destruct H as [H|[H|H]]; [exact (no_copy_lval l H) | | exact (IH _ _ H)].
+    destruct (ljmp_facts l false (TAt a)) as [Hc _]. exact (Hc H).
 Qed.
+
 Lemma no_copy_dnf_code : forall alts p body, ~ In ICopy (dnf_code alts p body).
 Proof.
   induction alts as [|ls r IH]; intros p body H; [exact H|].
@@ -1245,17 +1404,17 @@ Theorem roundtrip_dnf : forall alts, wf_alts alts -> decompile PFilter (dnf alts
 Proof.
   intros alts Hwf. unfold decompile. rewrite compile_dnf by assumption.
   unfold decompile_code. rewrite or_jumps_dnf by assumption.
-  assert (Hvj : value_jumps (dnf_code alts 2 (2 + 2 * total_lits alts) ++ [ILoadElt; IYield]) = []).
+  assert (Hvj : value_jumps (dnf_code alts 2 (2 + total_lits alts) ++ [ILoadElt; IYield]) = []).
   { rewrite value_jumps_from. apply vj_from_no_copy. intro H. apply in_app_or in H.
     destruct H as [H|[H|[H|[]]]]; try discriminate H. exact (no_copy_dnf_code _ _ _ H). }
   rewrite Hvj.
-  assert (Hce : conditions_end (dnf_code alts 2 (2 + 2 * total_lits alts) ++ [ILoadElt; IYield]) = pos_of (0 + 2 * total_lits alts)).
+  assert (Hce : conditions_end (dnf_code alts 2 (2 + total_lits alts) ++ [ILoadElt; IYield]) = pos_of (0 + total_lits alts)).
   { rewrite conditions_end_from, ce_from_app, ce_from_dnf_code by assumption. reflexivity. }
   rewrite Hce.
-  assert (Hcode : dnf_code alts 2 (2 + 2 * total_lits alts) = dnf_code alts (pos_of 0) (pos_of (0 + 2 * total_lits alts)))
+  assert (Hcode : dnf_code alts 2 (2 + total_lits alts) = dnf_code alts (pos_of 0) (pos_of (0 + total_lits alts)))
     by (f_equal; unfold pos_of; lia).
   rewrite Hcode.
-  destruct (run_dnf_from alts (rev (epos alts 0)) (pos_of (0 + 2 * total_lits alts)) 0 (init_state PFilter) [] Hwf eq_refl)
+  destruct (run_dnf_from alts (rev (epos alts 0)) (pos_of (0 + total_lits alts)) 0 (init_state PFilter) [] Hwf eq_refl)
     as [final [Hrun Hstrip]].
   - intros p Hp. rewrite existsb_exists. split.
     + intros [x [Hx He]]. apply Nat.eqb_eq in He. subst x. apply in_rev. assumption.
